@@ -36,6 +36,8 @@ import (
 	"go.opentelemetry.io/collector/exporter/exporterhelper"
 	"go.opentelemetry.io/collector/exporter/exporterhelper/internal/experr"
 	"go.opentelemetry.io/collector/pdata/plog"
+	"go.opentelemetry.io/collector/pdata/ptrace"
+	"go.opentelemetry.io/collector/pdata/pmetric"
 )
 
 type cfgT struct {
@@ -90,7 +92,8 @@ type runner struct {
 	stop1  int64
 	cnl0   int64
 	cnl1   int64
-	exp    exporter.Logs
+	exp    component.Component
+	sig    string // logs | traces | metrics: the request type (its OnError extracts the remainder of a partial failure)
 	cancel context.CancelFunc
 	once   sync.Once
 	conce  sync.Once
@@ -153,8 +156,78 @@ func mkLogs(items []int64) plog.Logs {
 const companionErr = "companion request: transient failure"
 
 func (r *runner) push(ctx context.Context, ld plog.Logs) error {
+	return r.pushItems(ctx, ids(ld), func(err error, rem []int64) error { return consumererror.NewLogs(err, mkLogs(rem)) })
+}
+
+func (r *runner) pushTraces(ctx context.Context, td ptrace.Traces) error {
+	return r.pushItems(ctx, idsTraces(td), func(err error, rem []int64) error { return consumererror.NewTraces(err, mkTraces(rem)) })
+}
+
+func (r *runner) pushMetrics(ctx context.Context, md pmetric.Metrics) error {
+	return r.pushItems(ctx, idsMetrics(md), func(err error, rem []int64) error { return consumererror.NewMetrics(err, mkMetrics(rem)) })
+}
+
+func idsTraces(td ptrace.Traces) []int64 {
+	var out []int64
+	for i := 0; i < td.ResourceSpans().Len(); i++ {
+		rs := td.ResourceSpans().At(i)
+		for j := 0; j < rs.ScopeSpans().Len(); j++ {
+			ss := rs.ScopeSpans().At(j)
+			for k := 0; k < ss.Spans().Len(); k++ {
+				v, _ := ss.Spans().At(k).Attributes().Get("id")
+				out = append(out, v.Int())
+			}
+		}
+	}
+	sort.Slice(out, func(a, b int) bool { return out[a] < out[b] })
+	return out
+}
+
+func mkTraces(items []int64) ptrace.Traces {
+	td := ptrace.NewTraces()
+	ss := td.ResourceSpans().AppendEmpty().ScopeSpans().AppendEmpty()
+	for _, id := range items {
+		sp := ss.Spans().AppendEmpty()
+		sp.Attributes().PutInt("id", id)
+		sp.SetName("item " + strconv.FormatInt(id, 10))
+	}
+	return td
+}
+
+func idsMetrics(md pmetric.Metrics) []int64 {
+	var out []int64
+	for i := 0; i < md.ResourceMetrics().Len(); i++ {
+		rm := md.ResourceMetrics().At(i)
+		for j := 0; j < rm.ScopeMetrics().Len(); j++ {
+			sm := rm.ScopeMetrics().At(j)
+			for k := 0; k < sm.Metrics().Len(); k++ {
+				dps := sm.Metrics().At(k).Gauge().DataPoints()
+				for l := 0; l < dps.Len(); l++ {
+					v, _ := dps.At(l).Attributes().Get("id")
+					out = append(out, v.Int())
+				}
+			}
+		}
+	}
+	sort.Slice(out, func(a, b int) bool { return out[a] < out[b] })
+	return out
+}
+
+func mkMetrics(items []int64) pmetric.Metrics {
+	md := pmetric.NewMetrics()
+	sm := md.ResourceMetrics().AppendEmpty().ScopeMetrics().AppendEmpty()
+	for _, id := range items {
+		m := sm.Metrics().AppendEmpty()
+		m.SetName("item " + strconv.FormatInt(id, 10))
+		dp := m.SetEmptyGauge().DataPoints().AppendEmpty()
+		dp.Attributes().PutInt("id", id)
+		dp.SetIntValue(id)
+	}
+	return md
+}
+
+func (r *runner) pushItems(ctx context.Context, got []int64, partial func(error, []int64) error) error {
 	a := nowUs()
-	got := ids(ld)
 	if len(got) > 0 && got[0] >= 900 {
 		// the companion request: always fails retryably, at once
 		return errors.New(companionErr)
@@ -203,7 +276,7 @@ func (r *runner) push(ctx context.Context, ld plog.Logs) error {
 		} else {
 			rem = append(rem, got[1:]...)
 		}
-		err = consumererror.NewLogs(errors.New("partial failure"), mkLogs(rem))
+		err = partial(errors.New("partial failure"), rem)
 	case "expire":
 		if _, has := ctx.Deadline(); !has {
 			kind = "transient"
@@ -314,9 +387,28 @@ func runScript(sid int, sc script, unit time.Duration) ([]event, error) {
 	set := exporter.Settings{ID: component.NewIDWithName(typ, strconv.Itoa(sid)),
 		TelemetrySettings: componenttest.NewNopTelemetrySettings(), BuildInfo: component.NewDefaultBuildInfo()}
 	set.Logger = zap.New(core{r})
-	exp, err := exporterhelper.NewLogs(context.Background(), set, &struct{}{}, r.push,
-		exporterhelper.WithRetry(rcfg),
-		exporterhelper.WithTimeout(exporterhelper.TimeoutConfig{Timeout: time.Duration(sc.Cfg.Tmo) * unit}))
+	// the request type decides how the remainder of a partial failure is extracted (request.ErrorHandler of the logs / traces /
+	// metrics request): the three signals take turns
+	r.sig = []string{"logs", "traces", "metrics"}[sid%3]
+	ropts := []exporterhelper.Option{exporterhelper.WithRetry(rcfg),
+		exporterhelper.WithTimeout(exporterhelper.TimeoutConfig{Timeout: time.Duration(sc.Cfg.Tmo) * unit})}
+	var exp component.Component
+	var send func(context.Context, []int64) error
+	var err error
+	switch r.sig {
+	case "traces":
+		var x exporter.Traces
+		x, err = exporterhelper.NewTraces(context.Background(), set, &struct{}{}, r.pushTraces, ropts...)
+		exp, send = x, func(ctx context.Context, it []int64) error { return x.ConsumeTraces(ctx, mkTraces(it)) }
+	case "metrics":
+		var x exporter.Metrics
+		x, err = exporterhelper.NewMetrics(context.Background(), set, &struct{}{}, r.pushMetrics, ropts...)
+		exp, send = x, func(ctx context.Context, it []int64) error { return x.ConsumeMetrics(ctx, mkMetrics(it)) }
+	default:
+		var x exporter.Logs
+		x, err = exporterhelper.NewLogs(context.Background(), set, &struct{}{}, r.push, ropts...)
+		exp, send = x, func(ctx context.Context, it []int64) error { return x.ConsumeLogs(ctx, mkLogs(it)) }
+	}
 	if err != nil {
 		return nil, err
 	}
@@ -345,12 +437,12 @@ func runScript(sid int, sc script, unit time.Duration) ([]event, error) {
 		cwg.Add(1)
 		go func() {
 			defer cwg.Done()
-			_ = exp.ConsumeLogs(cctx, mkLogs([]int64{901, 902}))
+			_ = send(cctx, []int64{901, 902})
 		}()
 		time.Sleep(unit / 4)
 	}
 	tc := nowUs()
-	err = exp.ConsumeLogs(ctx, mkLogs(items))
+	err = send(ctx, items)
 	tr := nowUs() + 1
 	cls := "error"
 	switch {
